@@ -29,6 +29,16 @@ CLAIMED = {
             "checks NoSilentCompletion and EncryptedFieldRejectedAtOnce, and predicts the failing call; the real code must "
             "fail at that call.",
             TLA + "adversary model + scenario replay (D1)"),
+    "C04": ("model_checking", "5 (C04)",
+            "MC_Transport offers every pool message to both endpoints (reflection, cross-direction), altered/truncated/"
+            "extended/garbage/donor-session messages, and in stateless mode every nonce pair; invariant OnlyPeerAccepted; "
+            "every edge of the state graph is replayed on the code for default and ring-backed sessions.",
+            TLA + "edge-cover scenario replay (D1)"),
+    "C05": ("model_checking", "5 (C05)",
+            "All delivery schedules (reorder/loss/duplication/garbage/undersized buffers/explicit receiving nonce) explored "
+            "exhaustively within the stated depth; invariants InOrderOnce, RejectIsNoOp; result and both nonces compared after "
+            "every call of every edge.",
+            TLA + "edge-cover scenario replay (D1)"),
     "C06": ("model_checking", "5 (C06)",
             "History variable aeadLog over both endpoints incl. failed calls, retries, late set_psk; invariants NoNonceReuse, "
             "ReservedUnused. On the code, a recording Cipher/Random (via Builder::with_resolver) logs every encryption and draw "
@@ -39,10 +49,25 @@ CLAIMED = {
             "both sides, every message) and computes the expected continuation; the code must return the documented error kind, "
             "keep every observable unchanged and then produce exactly the failure-free bytes.",
             TLA + "model-derived fault enumeration replayed on the code (D1)"),
+    "C09": ("model_checking", "5 (C09)",
+            "Counters are placed two below 2^64-1 (sender through the verif-hooks hook) and every interleaving of ok/failing "
+            "reads/writes and explicit settings is explored; invariants StepsByOne, ExhaustedFails, ReservedUnused; the "
+            "recording cipher flags any use of nonce 2^64-1 other than the REKEY input.",
+            TLA + "edge-cover scenario replay at the top of the 64-bit range (D1) + recording cipher"),
     "C14": ("model_checking", "5 (C14)",
             "Lengths are computed by the model from the fields written (Framing invariant) and compared on every call; boundary "
             "payloads (0, max-fit, max-fit+1) and buffers one byte / one tag short of every field end.",
             TLA + "Framing invariant + boundary scenario replay (D1)"),
+    "C15": ("model_checking", "5 (C15)",
+            "Every bounded sequence of write/deliver/rekey_outgoing/rekey_incoming/rekey_manually on both sides, stateful and "
+            "stateless; REKEY(k) is a term evaluated from its definition with independent primitives so post-rekey bytes are "
+            "compared exactly; in-sync delivers, out-of-sync rejects follows from the AEAD law of the model.",
+            TLA + "edge-cover scenario replay with byte-exact REKEY (D1)"),
+    "C16": ("model_checking", "5 (C16)",
+            "Stateless writes/reads under nonces {0,1,2,2^32,2^32+1,2^63,2^64-3..2^64-1} in any order and repetition, "
+            "maximum-size payloads, default and ring backends; the expected message under nonce n is the term of the stateful "
+            "sender's n-th message. Thread interleavings are sampled by a multi-threaded driver (not enumerated).",
+            TLA + "edge-cover scenario replay (D1)"),
     "C17": ("model_checking", "5 (C17)",
             "RemoteStaticCorrect on every state; get_remote_static() compared with the model term after every call on all three "
             "state types for 32- and 65-byte keys, including after rejected reads and across both conversions.",
